@@ -458,10 +458,10 @@ func Run(o *hx.Opts, w *lineio.Writer) error {
 			seq = append(seq, &rt.Job{ID: fmt.Sprintf("masks-%d", i), In: in})
 		}
 	}
-	for i := 0; i < o.N(600, 4000); i++ {
+	for i := 0; i < o.N(600, 15000); i++ {
 		seq = append(seq, &rt.Job{ID: fmt.Sprintf("random-%d", i), In: genRandom(o, i)})
 	}
-	for i := 0; i < o.N(150, 2000); i++ {
+	for i := 0; i < o.N(150, 6000); i++ {
 		conc = append(conc, &rt.Job{ID: fmt.Sprintf("conc-%d", i), In: genConc(o, i)})
 	}
 	err := rt.Dispatch(o.Scratch, "C06", "", seq, 10, 6, 40*time.Second)
